@@ -152,12 +152,17 @@ Leveled ==
          /\ A' = A
          /\ Log([op |-> "leveled", l0 |-> p[1], ts |-> p[2], w |-> w])
 
+\* with "litter" enabled the directory may hold leftovers of a crashed / failed operation
+\* (partial table and blob files, a stale version file) when it is opened: recovery removes
+\* them, the transition is the same (C20)
 Reopen ==
     /\ "reopen" \in Ops
     /\ st.snaps = {}
     /\ st' = OpReopen(st)
     /\ A' = AReopen(A)
-    /\ Log([op |-> "reopen"])
+    /\ IF "litter" \in Ops
+       THEN \E lt \in {0, 1} : Log([op |-> "reopen", litter |-> lt])
+       ELSE Log([op |-> "reopen"])
 
 \* bounds offered to drop_range: unbounded / inclusive / exclusive at keys and between keys
 BoundPoints == 1..(2 * Max(Keys) + 1)
